@@ -124,6 +124,11 @@ func runC20(e *core.Env, n int) {
 			for j := 0; j < k; j++ {
 				sc.Receiver = append(sc.Receiver, Op{Op: "recv"})
 			}
+			if k > 0 && r.Intn(4) == 0 {
+				// the last receive before the stall fails on the client's own side (a destination the cloner
+				// refuses): the client has still received nothing more, and the sender is held back as before
+				sc.Receiver[len(sc.Receiver)-1].Op = "recv-wrong"
+			}
 			sc.Receiver = append(sc.Receiver, Op{Op: "gate", Gate: "stall"})
 			if release == "recv" || release == "finish" {
 				sc.Receiver = append(sc.Receiver, Op{Op: "recvall"})
@@ -199,9 +204,11 @@ func runC20(e *core.Env, n int) {
 					arrived++
 				}
 			}
+			// (a receive that the receiver itself made fail may or may not have used up the message it was offered)
+			selfFailed := len(run.Rets(rWho, "recv-wrong"))
 			if failed > 0 {
 				e.Violate("backpressure/"+dir+"/send-failed-instead-of-waiting", fmt.Sprintf("%d of %d sends failed (%v) although the receiver only paused after %d receives and then received everything offered", failed, nsend, firstErr, k), w)
-			} else if arrived != nsend {
+			} else if arrived > nsend || arrived+selfFailed < nsend {
 				e.Violate("backpressure/"+dir+"/not-all-delivered", fmt.Sprintf("%d sends succeeded but %d messages arrived after the receiver went on", nsend, arrived), w)
 			}
 		}
